@@ -106,6 +106,11 @@ SWAP = {ast.Eq: ast.NotEq, ast.NotEq: ast.Eq, ast.Lt: ast.LtE, ast.LtE: ast.Lt, 
         ast.Is: ast.IsNot, ast.IsNot: ast.Is, ast.In: ast.NotIn, ast.NotIn: ast.In}
 
 
+ARITH = {ast.Add: ast.Sub, ast.Sub: ast.Add, ast.LShift: ast.RShift, ast.RShift: ast.LShift, ast.BitAnd: ast.BitOr, ast.BitOr: ast.BitAnd,
+         ast.Mult: ast.Add, ast.FloorDiv: ast.Mult, ast.Mod: ast.FloorDiv}
+FLIP = {ast.Lt: ast.Gt, ast.Gt: ast.Lt, ast.LtE: ast.GtE, ast.GtE: ast.LtE}
+
+
 def find_fn(tree, qual):
     node = tree
     for part in qual.split("."):
@@ -114,9 +119,25 @@ def find_fn(tree, qual):
 
 
 def sites(fn):
-    """(index of node in ast.walk order, kind) for every mutation site"""
+    """(index of node in ast.walk order, kind) for every mutation site.  AUTOMUTATE_OPS=2 selects the second operator
+    set (arithmetic / ordering operators, dropped keyword arguments, swapped arguments, `yield from` dropped)."""
     out = []
+    ops2 = os.environ.get("AUTOMUTATE_OPS") == "2"
     for i, n in enumerate(ast.walk(fn)):
+        if ops2:
+            if isinstance(n, (ast.BinOp, ast.AugAssign)) and type(n.op) in ARITH:
+                out.append((i, "swap-arith"))
+            if isinstance(n, ast.Call):
+                for k in range(len(n.keywords)):
+                    if n.keywords[k].arg is not None:
+                        out.append((i, f"drop-kwarg:{k}"))
+                if len(n.args) == 2 and not any(isinstance(a, ast.Starred) for a in n.args):
+                    out.append((i, "swap-args"))
+            if isinstance(n, ast.Expr) and isinstance(n.value, ast.YieldFrom):
+                out.append((i, "unyield"))
+            if isinstance(n, ast.Compare) and len(n.ops) == 1 and type(n.ops[0]) in FLIP:
+                out.append((i, "flip-cmp"))
+            continue
         if isinstance(n, (ast.If, ast.While)) and not (isinstance(n.test, ast.Constant)):
             out.append((i, "negate-test"))
         if isinstance(n, ast.BoolOp):
@@ -163,6 +184,22 @@ def mutate(tree, qual, idx, kind):
     elif kind == "flip-bool":
         desc = f"L{n.lineno}: {n.value} -> {not n.value}"
         n.value = not n.value
+    elif kind == "swap-arith":
+        desc = f"L{n.lineno}: {type(n.op).__name__}->{ARITH[type(n.op)].__name__} in `{ast.unparse(n)[:60]}`"
+        n.op = ARITH[type(n.op)]()
+    elif kind.startswith("drop-kwarg:"):
+        k = int(kind.split(":")[1])
+        desc = f"L{n.lineno}: drop keyword {n.keywords[k].arg} in `{ast.unparse(n)[:60]}`"
+        del n.keywords[k]
+    elif kind == "swap-args":
+        desc = f"L{n.lineno}: swap arguments of `{ast.unparse(n)[:60]}`"
+        n.args = [n.args[1], n.args[0]]
+    elif kind == "unyield":
+        desc = f"L{n.lineno}: `yield from` dropped in `{ast.unparse(n)[:60]}`"
+        n.value = n.value.value
+    elif kind == "flip-cmp":
+        desc = f"L{n.lineno}: {type(n.ops[0]).__name__}->{FLIP[type(n.ops[0])].__name__} in `{ast.unparse(n)[:60]}`"
+        n.ops = [FLIP[type(n.ops[0])]()]
     elif kind in ("continue->break", "break->continue"):
         desc = f"L{n.lineno}: {kind}"
         new = ast.Break() if kind.startswith("continue") else ast.Continue()
